@@ -146,6 +146,7 @@ def main(argv=None):
     ap.add_argument("--seed", type=int, default=None)
     ap.add_argument("--no-evidence", action="store_true")
     ap.add_argument("--max-report", type=int, default=6)
+    ap.add_argument("--no-selftest", action="store_true", help="skip the in-check determinism sample (sweeps only)")
     args = ap.parse_args(argv)
     master = args.seed if args.seed is not None else int(os.environ.get("VERIF_SEED", "20260927"))
     prop = args.prop
@@ -185,7 +186,10 @@ def main(argv=None):
     cap = 3300 if args.tier == "quick" else 6 * 3600
     agg = engine.run_batch(prop, master, nruns, workers=args.workers, wall_cap=cap)
     harness_errors = list(agg["errors"])
-    agg["determinism"] = determinism_selftest(prop, master, 40 if args.tier == "quick" else 200)
+    if args.no_selftest:
+        agg["determinism"] = {"ok": True, "n": 0, "skipped": True}
+    else:
+        agg["determinism"] = determinism_selftest(prop, master, 40 if args.tier == "quick" else 200)
     if not agg["determinism"]["ok"]:
         harness_errors.append((-1, "determinism self-test failed: %r" % (agg["determinism"],)))
 
